@@ -3,7 +3,9 @@
 Every instance is a generated struct with a `call` (the Au function) and an `expect` (the std function on operands the
 harness converted exactly to the model's common unit); harness/c15_math.hh runs the value grids.  The result unit is read
 out as a prime factorisation and compared here with the model (common unit = base-wise gcd of the magnitudes; common
-point unit = gcd of magnitudes and origin difference, lowest origin).
+point unit = gcd of magnitudes and origin difference, lowest origin).  Operand pairs with an irrational ratio get long
+double factors and a tolerance judge (run_two_irr).  A call that no conversion policy can refuse (Inst.strict) and that
+does not compile is a violation; CONSTEXPR lists the static_assert uses.
 """
 import math
 import os
@@ -42,6 +44,8 @@ def common_rep(*reps):
 
 
 def lit(v):
+    if isinstance(v, Fr):
+        return C.ld_lit(v)          # a value that need not be a double (long double reps)
     if isinstance(v, float):
         if math.isnan(v):
             return "-(c15::ld)NAN" if math.copysign(1, v) < 0 else "(c15::ld)NAN"
@@ -104,7 +108,14 @@ def fp_vals(rep, small=False):
     return res
 
 
+# values only a long double holds (not doubles): a slip that routes a long double rep through double changes them
+LD_ONLY = [Fr(1, 10) + Fr(1, 2 ** 66), Fr(1, 3), -Fr(2, 3), Fr(2 ** 64 + 1, 2 ** 63), Fr(3 * 2 ** 62 + 1, 2 ** 64), Fr(10 ** 18 + 1, 1),
+           -Fr(2 ** 63 + 1, 2)]
+
+
 def vals(rep, n=1, c=None, small=False):
+    if rep == "long double":
+        return fp_vals(rep, small) + LD_ONLY
     return fp_vals(rep, small) if rep in FP else int_vals(rep, n, c, small)
 
 
@@ -149,9 +160,11 @@ def mk(u, point=False):
 
 # ---------------------------------------------------------------------------------------------- instance generators
 class Inst:
-    def __init__(self, kind, fn, desc, body, runner, probe, unit=None, reps=(), meta=None, predict=True):
+    def __init__(self, kind, fn, desc, body, runner, probe, unit=None, reps=(), meta=None, predict=True, strict=True):
+        """strict: nothing in the statement lets this call be refused, so a compile-time rejection is a violation
+        (False only where the documented implicit-conversion policy may refuse an integral rep)."""
         self.kind, self.fn, self.desc, self.body, self.runner, self.probe = kind, fn, desc, body, runner, probe
-        self.unit, self.reps, self.meta, self.predict = unit, reps, meta or {}, predict
+        self.unit, self.reps, self.meta, self.predict, self.strict = unit, reps, meta or {}, predict, strict
 
 
 def policy_ok(rep, n, off=0):
@@ -170,8 +183,14 @@ QPAIRS = [("feet", None, "inches", None), ("inches", None, "feet", None), ("mete
           ("meters", "kilo", "meters", None), ("feet", None, "meters", None), ("hours", None, "minutes", None),
           ("degrees", None, "revolutions", None), ("seconds", None, "seconds", "milli"), ("bytes", None, "bits", None),
           ("yards", None, "feet", None)]
-PPAIRS = [("celsius", None, "kelvins", None), ("kelvins", None, "kelvins", "milli"), ("celsius", None, "fahrenheit", None),
-          ("kelvins", None, "celsius", None)]
+# the first pair has identical units: with identical reps it reaches the same-type QuantityPoint overloads of min / max
+PPAIRS = [("kelvins", None, "kelvins", None), ("celsius", None, "kelvins", None), ("kelvins", None, "kelvins", "milli"),
+          ("celsius", None, "fahrenheit", None), ("kelvins", None, "celsius", None)]
+NPP_QUICK = 3
+# operand pairs with an irrational ratio (the common unit makes one factor a multiple of pi): floating reps, tolerance judge
+IRR_PAIRS = [("radians", None, "degrees", None), ("degrees", None, "radians", None), ("revolutions", None, "radians", None)]
+IRR_REPS = [("double", "double"), ("float", "float"), ("float", "double"), ("double", "float")]
+IRR_REPS_CMATH = [("int32_t", "double"), ("double", "int32_t"), ("int32_t", "int32_t")]
 RP_EQ = ["int32_t", "double", "float", "int16_t", "int64_t", "uint32_t", "uint8_t"]
 RP_MIX = [("int16_t", "int32_t"), ("int32_t", "int64_t"), ("float", "double"), ("int32_t", "double"), ("uint16_t", "uint32_t"),
           ("int16_t", "int64_t"), ("uint32_t", "uint64_t"), ("int32_t", "float"), ("uint8_t", "int32_t"), ("int64_t", "double")]
@@ -207,12 +226,15 @@ def two_arg(fn, ua, ub, r1, r2, point=False, only=None):
     c = common_rep(r1, r2)
     x = c if fn in ("min", "max") else cmath_rep(r1, r2)
     exp = x
+    # min / max work in the common rep; hypot / fmod / remainder / arctan2 convert in the type the std function computes
+    # in, so representability of the converted operands is decided in that type alone (not in the common integral rep)
+    cc = c if fn in ("min", "max") else x
     # min / max / clamp are called unqualified (argument-dependent lookup), the way the hidden friends for identical types
     # are meant to be reached; a qualified au::min(q, q) of identical Quantity types is ambiguous with std::min
     ns_ = "" if fn in ("min", "max") else "au::"
     call = "%s%s(%s(a), %s(b))" % (ns_, fn, mk(ua, point), mk(ub, point))
     va, vb = (only[0], only[1]) if only else (vals(r1, n1, c), vals(r2, n2, c))
-    body = TWO % {"id": 0, "r1": r1, "r2": r2, "ca": c, "cb": c, "xa": x, "xb": x, "exp": exp, "n1": n1, "n2": n2, "o1": o1,
+    body = TWO % {"id": 0, "r1": r1, "r2": r2, "ca": cc, "cb": cc, "xa": x, "xb": x, "exp": exp, "n1": n1, "n2": n2, "o1": o1,
                   "o2": o2, "picks": "true" if fn in ("min", "max") else "false", "call": call, "expect": STD2[fn],
                   # std::min / std::max require a strict weak ordering of the values: NaN operands are outside their contract
                   "pre": "a == a && b == b" if fn in ("min", "max") else "true", "A": arr("A", va), "B": arr("B", vb)}
@@ -222,14 +244,51 @@ def two_arg(fn, ua, ub, r1, r2, point=False, only=None):
     else:
         unit = (cm, ua.mu.dim)
     desc = "%s:%su=%s,%s:r=%s,%s" % (fn, "point:" if point else "", ua.name, ub.name, r1, r2)
-    if fn in ("hypot", "arctan2"):
-        pred = policy_ok(r1, n1) and policy_ok(r2, n2)
-    elif fn in ("min", "max"):
+    if fn in ("min", "max"):
         pred = policy_ok(c, n1, o1) and policy_ok(c, n2, o2)
+        # only an integral rep with an actual conversion can be refused by the implicit-conversion policy
+        strict = c in FP or (n1 == n2 == 1 and o1 == o2 == 0)
     else:
-        pred = True
+        pred = strict = True        # explicit-rep conversion in the std function's type: total for same-dimension operands
     return Inst("two", fn, desc, body, "run_two", probe, unit, (r1, r2),
-                {"gen": ["two_arg", fn, [ua.name, ub.name], r1, r2, point]}, pred)
+                {"gen": ["two_arg", fn, [ua.name, ub.name], r1, r2, point]}, pred, strict)
+
+
+IRR = '''struct I%(id)d { typedef %(r1)s R1; typedef %(r2)s R2; typedef %(x)s X; static constexpr int FN = %(fnid)d;
+  static c15::ld f1() { return %(f1)s; } static c15::ld f2() { return %(f2)s; }
+  static auto call(R1 a, R2 b) { return %(call)s; }
+  %(A)s
+  %(B)s };'''
+IRR_FNS = ("hypot", "fmod", "remainder", "arctan2", "min", "max")
+ANGLES = [1.0, 57.29577951308232, 90.0, 180.0, 360.0, 3.141592653589793, 1.5707963267948966, 6.283185307179586, 0.25, 45.0]
+
+
+def irr_vals(rep, small):
+    if rep not in FP:
+        return [v for v in (0, 1, 2, 3, 45, 57, 90, 180, 360, 1000, 65536, tmax(rep), -1, -3, -90, -180, tmin(rep))
+                if tmin(rep) <= v <= tmax(rep)]
+    out = fp_vals(rep, small)
+    for v in ANGLES[: 6 if small else len(ANGLES)]:
+        v = f32(v) if rep == "float" else v
+        out += [v, -v]
+    return out
+
+
+def two_irr(fn, ua, ub, r1, r2, only=None):
+    """Operands whose common unit (model: base-wise gcd, pi is a base) needs a factor that is a multiple of pi."""
+    cm = model.mag_gcd([ua.mag, ub.mag])
+    f1, f2 = (C.mag_value(model.vdiv(u.mag, cm)) for u in (ua, ub))
+    c = common_rep(r1, r2)
+    x = c if fn in ("min", "max") else cmath_rep(r1, r2)
+    ns_ = "" if fn in ("min", "max") else "au::"
+    va, vb = (only[0], only[1]) if only else (irr_vals(r1, False), irr_vals(r2, True))
+    body = IRR % {"id": 0, "r1": r1, "r2": r2, "x": x, "fnid": IRR_FNS.index(fn), "f1": C.ld_lit(f1), "f2": C.ld_lit(f2),
+                  "call": "%s%s(%s(a), %s(b))" % (ns_, fn, mk(ua), mk(ub)), "A": arr("A", va), "B": arr("B", vb)}
+    probe = "(void)%s%s(%s(static_cast<%s>(1)), %s(static_cast<%s>(1)));" % (ns_, fn, mk(ua), r1, mk(ub), r2)
+    rad = model.LIB_BY_STEM["radians"]
+    unit = (rad.mag, rad.dim) if fn == "arctan2" else (cm, ua.mu.dim)
+    return Inst("irr", fn, "%s:irr:u=%s,%s:r=%s,%s" % (fn, ua.name, ub.name, r1, r2), body, "run_two_irr", probe, unit, (r1, r2),
+                {"gen": ["two_irr", fn, [ua.name, ub.name], r1, r2]}, True, True)
 
 
 THREE = '''struct I%(id)d { typedef %(r1)s R1; typedef %(r2)s R2; typedef %(r3)s R3; typedef %(c)s CA; typedef %(c12)s C12; typedef %(c13)s C13;
@@ -254,8 +313,9 @@ def three_arg(us, rs, point=False, only=None):
     probe = "(void)clamp(%s);" % ", ".join("%s(static_cast<%s>(1))" % (mk(u, point), r) for u, r in zip(us, rs))
     desc = "clamp:%su=%s:r=%s" % ("point:" if point else "", ",".join(u.name for u in us), ",".join(rs))
     pred = all(policy_ok(common_rep(rs[0], r), n, o) and policy_ok(c, n, o) for r, n, o in zip(rs, ns, offs))
+    strict = c in FP or (all(n == 1 for n in ns) and not any(offs))
     return Inst("three", "clamp", desc, body, "run_three", probe, (cm, us[0].mu.dim), tuple(rs),
-                {"gen": ["three_arg", [u.name for u in us], list(rs), point]}, pred)
+                {"gen": ["three_arg", [u.name for u in us], list(rs), point]}, pred, strict)
 
 
 ONE = '''struct I%(id)d { typedef %(r)s R; typedef %(exp)s ExpRep; static constexpr long long LO = %(lo)dLL, HI = %(hi)dLL;
@@ -347,6 +407,8 @@ def arc_vals(r):
         v = k / 64.0
         out += [v, v * (1 + 2.0 ** -20), v * (1 - 2.0 ** -20)]
     out += [-0.0, 1e-30, -1e-30, FDEN[r], 1e6, -1e6, FMAX[r], float("inf"), float("-inf"), float("nan")]
+    if r == "long double":
+        out += LD_ONLY[:5]
     return [f32(v) if r == "float" else v for v in out]
 
 
@@ -377,7 +439,7 @@ def instances(quick):
     out = []
     rps = rep_pairs(quick)
     qp = [(_reg(u_(a, pa)), _reg(u_(b, pb))) for a, pa, b, pb in (QPAIRS[:5] if quick else QPAIRS)]
-    pp = [(_reg(u_(a, pa)), _reg(u_(b, pb))) for a, pa, b, pb in (PPAIRS[:2] if quick else PPAIRS)]
+    pp = [(_reg(u_(a, pa)), _reg(u_(b, pb))) for a, pa, b, pb in (PPAIRS[:NPP_QUICK] if quick else PPAIRS)]
     for fn in ("hypot", "fmod", "remainder", "arctan2", "min", "max"):
         for ua, ub in qp:
             for r1, r2 in rps:
@@ -389,13 +451,22 @@ def instances(quick):
     trips = [("int32_t", "int32_t", "int32_t"), ("double", "double", "double"), ("int16_t", "int32_t", "int64_t"),
              ("int64_t", "int32_t", "int16_t"), ("float", "double", "float"), ("int32_t", "double", "int32_t"),
              ("int32_t", "int16_t", "int32_t"), ("uint16_t", "uint32_t", "uint32_t")]
-    utr = [(qp[0][0], qp[0][1], qp[0][0]), (qp[0][1], qp[0][0], qp[0][0]), (qp[2][0], qp[3][0], qp[2][0]), (qp[0][0], qp[0][0], qp[0][0])]
-    for us in (utr[:2] if quick else utr):
-        for rs in (trips[:5] if quick else trips):
+    # (feet, feet, feet) with identical reps is the only way to the hidden-friend clamp(Quantity, Quantity, Quantity)
+    utr = [(qp[0][0], qp[0][1], qp[0][0]), (qp[0][1], qp[0][0], qp[0][0]), (qp[0][0], qp[0][0], qp[0][0]), (qp[2][0], qp[3][0], qp[2][0])]
+    for k, us in enumerate(utr[:3] if quick else utr):
+        for rs in ((trips[:3] if k == 2 else trips[:5]) if quick else trips):
             out.append(three_arg(us, rs))
-    for ua, ub in pp[:2]:
+    for ua, ub in pp[:3]:
         for rs in (trips[:3] if quick else trips[:6]):
             out.append(three_arg((ua, ub, ua), rs, point=True))
+    ip = [(_reg(u_(a, pa)), _reg(u_(b, pb))) for a, pa, b, pb in (IRR_PAIRS[:2] if quick else IRR_PAIRS)]
+    for fn in IRR_FNS:
+        for ua, ub in ip:
+            for r1, r2 in (IRR_REPS[:3] if quick else IRR_REPS):
+                out.append(two_irr(fn, ua, ub, r1, r2))
+            if fn not in ("min", "max"):      # integral reps: only the std-function wrappers convert with an explicit rep
+                for r1, r2 in (IRR_REPS_CMATH[:2] if quick else IRR_REPS_CMATH):
+                    out.append(two_irr(fn, ua, ub, r1, r2))
     tu = [_reg(u_("radians")), _reg(u_("degrees")), _reg(u_("revolutions")), _reg(u_("arcminutes")), _reg(u_("radians", "milli"))]
     for fn in ("sin", "cos", "tan"):
         for u in tu:
@@ -406,18 +477,20 @@ def instances(quick):
     for fn in ("sin", "cos", "tan"):
         out.append(trig(fn, tu[0], "long double"))
     for fn in ("arcsin", "arccos", "arctan"):
-        for r in ("float", "double", "int32_t"):
+        for r in ("float", "double", "int32_t", "long double", "int8_t", "uint16_t") + (() if quick else ("int64_t", "uint8_t")):
             out.append(one_inst(fn, r))
     for r1, r2 in (("float", "float"), ("double", "double"), ("float", "double"), ("double", "float"), ("int32_t", "int32_t"),
-                   ("int32_t", "double")):
+                   ("int32_t", "double"), ("long double", "long double"), ("float", "int32_t"), ("double", "long double"),
+                   ("long double", "int32_t")):
         out.append(raw2_inst("arctan2", "RR", r1, r2))
     for form in ("QR", "RQ", "QQ"):
         for r1, r2 in (("double", "double"), ("float", "double"), ("double", "float"), ("int32_t", "double"), ("double", "int32_t"),
-                       ("float", "float"), ("int32_t", "int32_t")):
+                       ("float", "float"), ("int32_t", "int32_t"), ("long double", "long double"), ("float", "int32_t"),
+                       ("long double", "float")):
             out.append(raw2_inst("copysign", form, r1, r2))
-    for r in ("int8_t", "int16_t", "int32_t", "int64_t", "float", "double"):
+    for r in ("int8_t", "int16_t", "int32_t", "int64_t", "float", "double", "long double"):
         out.append(one_inst("abs", r))
-    for r in ("float", "double", "int32_t"):
+    for r in ("float", "double", "int32_t", "long double"):
         out.append(one_inst("isnan", r, "q"))
         out.append(one_inst("isnan", r, "p"))
     return [i for i in out if i is not None]
@@ -429,6 +502,9 @@ def regen(gen, only):
     if k == "two_arg":
         _, fn, (ua, ub), r1, r2, point = gen
         return two_arg(fn, UNITS_BY_NAME[ua], UNITS_BY_NAME[ub], r1, r2, point, only=only)
+    if k == "two_irr":
+        _, fn, (ua, ub), r1, r2 = gen
+        return two_irr(fn, UNITS_BY_NAME[ua], UNITS_BY_NAME[ub], r1, r2, only=only)
     if k == "three_arg":
         _, us, rs, point = gen
         return three_arg([UNITS_BY_NAME[u] for u in us], rs, point, only=only)
@@ -462,7 +538,9 @@ def num_to_py(s):
     if s in ("inf", "-inf"):
         return float(s)
     f = C.parse_num(s)
-    return int(f) if "x" not in s.lower() else float(f)
+    if "x" not in s.lower():
+        return int(f)
+    return float(f) if Fr(float(f)) == f else f       # a value only a long double holds stays an exact Fraction
 
 
 def describe(inst, v):
@@ -474,7 +552,7 @@ def describe(inst, v):
 def read_point_units(run, cfg, quick):
     """One dump TU: the unit of au::min / au::clamp results for every point-unit list used below."""
     from . import psx
-    pp = [(u_(a, pa), u_(b, pb)) for a, pa, b, pb in (PPAIRS[:2] if quick else PPAIRS)]
+    pp = [(u_(a, pa), u_(b, pb)) for a, pa, b, pb in (PPAIRS[:NPP_QUICK] if quick else PPAIRS)]
     recs, names = [], []
     for ua, ub in pp:
         names.append((ua, ub))
@@ -499,13 +577,45 @@ def read_point_units(run, cfg, quick):
     return bad
 
 
+# Constant-expression uses of the functions the library declares constexpr and whose std counterpart is constexpr in
+# C++14 (inverse_*, min, max, clamp): (name, expression).  Expected values are literals worked out by hand
+# (10^9/4, 10^9/5, 1/4, trunc(10^6/3), 12 in per ft, 0 degC = 273.15 K).
+CONSTEXPR = [
+    ("inverse_in", "au::inverse_in(au::Nano<au::Seconds>{}, au::hertz(4)) == 250000000"),
+    ("inverse_as", "au::inverse_as(au::nano(au::seconds), au::hertz(4)).in(au::nano(au::seconds)) == 250000000"),
+    ("inverse_in<int64_t>(int16_t)", "au::inverse_in<int64_t>(au::Nano<au::Seconds>{}, au::hertz(int16_t{5})) == 200000000LL"),
+    ("inverse_as<int64_t>(int16_t)", "au::inverse_as<int64_t>(au::nano(au::seconds), au::hertz(int16_t{5})).in(au::nano(au::seconds)) == 200000000LL"),
+    ("inverse_in<double>(int32_t)", "au::inverse_in<double>(au::Seconds{}, au::hertz(int32_t{4})) == 0.25"),
+    ("inverse_in(uint64_t)", "au::inverse_in(au::Micro<au::Seconds>{}, au::hertz(uint64_t{3})) == 333333u"),
+    ("inverse_in(double)", "au::inverse_in(au::milli(au::seconds), au::kilo(au::hertz)(2.0)) == 0.5"),
+    ("inverse_roundtrip", "au::inverse_as(au::hertz, au::inverse_as(au::micro(au::seconds), au::hertz(1000))).in(au::hertz) == 1000"),
+    ("clamp:friend:hi", "clamp(au::feet(5), au::feet(1), au::feet(3)).in(au::feet) == 3"),
+    ("clamp:friend:lo", "clamp(au::feet(-5), au::feet(1), au::feet(3)).in(au::feet) == 1"),
+    ("clamp:friend:mid", "clamp(au::feet(2), au::feet(1), au::feet(3)).in(au::feet) == 2"),
+    ("clamp:mixed:lo", "au::clamp(au::feet(1), au::inches(24), au::inches(30)).in(au::inches) == 24"),
+    ("clamp:mixed:hi", "au::clamp(au::feet(3), au::inches(24), au::inches(30)).in(au::inches) == 30"),
+    ("clamp:mixed:mid", "au::clamp(au::feet(2), au::inches(12), au::inches(30)).in(au::inches) == 24"),
+    ("min:friend", "min(au::feet(1), au::feet(2)).in(au::feet) == 1"),
+    ("max:friend", "max(au::feet(1), au::feet(2)).in(au::feet) == 2"),
+    ("min:mixed", "au::min(au::feet(1), au::inches(13)).in(au::inches) == 12"),
+    ("max:mixed", "au::max(au::feet(1), au::inches(13)).in(au::inches) == 13"),
+    ("min:point:same", "au::min(au::kelvins_pt(3), au::kelvins_pt(5)).in(au::kelvins_pt) == 3"),
+    ("max:point:same", "au::max(au::kelvins_pt(3), au::kelvins_pt(5)).in(au::kelvins_pt) == 5"),
+    ("max:point:mixed", "au::max(au::celsius_pt(0), au::kelvins_pt(273)) == au::celsius_pt(0)"),
+    ("min:point:mixed", "au::min(au::celsius_pt(0), au::kelvins_pt(273)) == au::kelvins_pt(273)"),
+    ("clamp:point:hi", "au::clamp(au::celsius_pt(50), au::kelvins_pt(273), au::kelvins_pt(300)) == au::kelvins_pt(300)"),
+    ("clamp:point:same", "au::clamp(au::kelvins_pt(1), au::kelvins_pt(2), au::kelvins_pt(4)).in(au::kelvins_pt) == 2"),
+]
+_SA_FAILED = ("static assertion failed", "static_assert failed")
+
+
 class Explorer:
     """Stages: prepare(cfg) (point-unit read-out + domain probes), sweep(cfg) any number of times, summary()."""
 
     def __init__(self, run, viol):
         self.run, self.viol, self.quick = run, viol, run.tier == "quick"
         self.S, self.builds, self.dom, self.rejected, self.mism = [], [], [], [], 0
-        self.insts, self.byid = [], {}
+        self.insts, self.byid, self.strict_rejected, self.cexpr = [], {}, 0, {}
 
     def prepare(self, cfg):
         run, viol = self.run, self.viol
@@ -522,14 +632,52 @@ class Explorer:
             else:
                 C.guard(res[iid][1])
                 self.rejected.append(i.desc)
+                if i.strict:
+                    # loss of domain: the statement makes this call available (no implicit-conversion policy involved)
+                    self.strict_rejected += 1
+                    viol("C15:cmath-rejected:%s" % i.desc,
+                         "%s: `%s` does not compile although nothing in the statement lets it be refused: %s"
+                         % (cfg, i.probe, res[iid][1][:300]),
+                         {"kind": "probe", "code": i.probe, "expected": "accept", "config": [cfg.cxx, cfg.std],
+                          "preamble": '#include "c15_common.hh"\n'})
             self.mism += (res[iid][0] == "accept") != i.predict
-        if len(self.dom) < 0.6 * len(self.insts):
+        if len(self.dom) < 0.6 * len(self.insts) and not self.strict_rejected:
             raise core.InfraError("vacuity guard: only %d of %d cmath instances compile, e.g. %s"
                                   % (len(self.dom), len(self.insts), self.rejected[:3]))
 
+    def constexpr_stage(self, cfg):
+        """static_assert(expr) next to the same expression evaluated at run time (`(void)(expr)`).  A failing assertion
+        or an expression that no longer compiles at all is a violation; an expression that merely is not a constant
+        expression is only counted (the statement says nothing about constant evaluation)."""
+        pre = '#include "c15_common.hh"\n'
+        ps = []
+        for k, (name, expr) in enumerate(CONSTEXPR):
+            ps.append(core.Probe(("sa", k), 'static_assert(%s, "");' % expr, "accept"))
+            ps.append(core.Probe(("rt", k), "(void)(%s);" % expr, "accept"))
+        res, _ = core.run_probes(cfg, ps, os.path.join(self.run.wd, "cexpr_" + cfg.name), "ce", pre, batch=8)
+        st = self.cexpr.setdefault(cfg.name, {"static_asserts": 0, "hold": 0, "not_a_constant_expression(not judged)": []})
+        for k, (name, expr) in enumerate(CONSTEXPR):
+            st["static_asserts"] += 1
+            (sv, sd), (rv, rd) = res[("sa", k)], res[("rt", k)]
+            if sv == "accept" and rv == "accept":
+                st["hold"] += 1
+                continue
+            C.guard(sd if sv != "accept" else rd)
+            if rv != "accept":
+                self.viol("C15:constexpr-rejected:%s" % name, "%s: `%s` does not compile: %s" % (cfg, expr, rd[:300]),
+                          {"kind": "probe", "code": "(void)(%s);" % expr, "expected": "accept", "config": [cfg.cxx, cfg.std],
+                           "preamble": pre})
+            elif any(m in sd for m in _SA_FAILED):
+                self.viol("C15:constexpr-value:%s" % name,
+                          "%s: static_assert(%s) fails: the constant-evaluated result is not the required value" % (cfg, expr),
+                          {"kind": "probe", "code": 'static_assert(%s, "");' % expr, "expected": "accept",
+                           "config": [cfg.cxx, cfg.std], "preamble": pre})
+            else:
+                st["not_a_constant_expression(not judged)"].append("%s: %s" % (name, sd[:120]))
+
     def sweep(self, cfg):
         dom, byid, viol = self.dom, self.byid, self.viol
-        r = C.build_run(self.run.wd, cfg, "math", [tu_text(g) for g in C.split(dom, core.NCPU * 3)], FLAGS)
+        r = C.build_run(self.run.wd, cfg, "math", [tu_text(g) for g in C.split(dom, max(core.NCPU * 3, (len(dom) + 99) // 100))], FLAGS)
         self.builds.append(str(cfg))
         if len(r["S"]) != len(dom):
             raise core.InfraError("cmath sweep: %d of %d instances reported" % (len(r["S"]), len(dom)))
@@ -575,9 +723,14 @@ class Explorer:
         return {
             "instances": len(self.insts), "instances_in_domain": len(self.dom),
             "instances_rejected_at_compile_time": len(self.rejected), "rejected_examples": self.rejected[:6],
+            "rejected_although_no_policy_applies(violations)": self.strict_rejected,
+            "instances_where_the_conversion_policy_may_refuse": sum(1 for _, i in self.insts if not i.strict),
             "compile_time_prediction_mismatches": self.mism, "sweep_builds": self.builds,
+            "constant_expression_probes": self.cexpr,
             "evaluations": sum(s["evals"] for s in S), "skipped_outside_precondition": sum(s["skipped"] for s in S),
-            "trig_pole_band": sum(s["band"] for s in S), "bit_exact_trig_checks": sum(s["exact"] for s in S),
+            "trig_pole_band": sum(s["band"] for s in S if byid[s["inst"]].kind == "trig"),
+            "irrational_pair_dont_care_band": sum(s["band"] for s in S if byid[s["inst"]].kind == "irr"),
+            "irrational_pair_instances": sum(1 for s in g if byid[s["inst"]].kind == "irr"), "bit_exact_trig_checks": sum(s["exact"] for s in S),
             "vacuous_instances": vac[:10],
             "instances_with_both_outcomes": sum(1 for s in g if bin(s["branches"]).count("1") >= 2),
             "per_function": fams, "raw_violations": sum(s["viol"] for s in S),
